@@ -1,4 +1,4 @@
-import Poly.Proofs.KVLayers
+import Poly.Proofs.KVScan
 /-!
 # C10 — Layered state views agree with their backing store
 
@@ -122,6 +122,84 @@ theorem reset_discards (c : CacheDB) (o : Overlay) (k : Key) :
   · rw [Overlay.get_eq]; simp only [Overlay.reset, MemDB.reset, lookup]
     cases lookup k o.store.data <;> rfl
   · rw [CacheDB.get_eq]; simp [CacheDB.reset, MemDB.reset, lookup]
+
+/-! ### Prefix scans: the join iterator -/
+
+/-- The specification stream `merge newer older` is sorted and answers point reads like "newest layer that knows
+the key" — so `liveMerge` (its entries with a non-empty value) is exactly "visible live keys, newest value,
+byte order". -/
+theorem merge_is_newest_wins (a b : Entries) (ha : Sorted a) (hb : Sorted b) (k : Key) :
+    Sorted (merge a b) ∧
+    lookup k (merge a b) = (match lookup k a with | some v => some v | none => lookup k b) :=
+  ⟨merge_sorted ha hb, lookup_merge ha hb k⟩
+
+/-- **joinIter_eq_merge.** `JoinIter` over any two iterators that behave as cursors over sorted streams `la`
+(newer) and `lb` (older): `First` then `Next` until false yields exactly `liveMerge la lb` — keys of either
+side, the newer value on equal keys, entries with an empty value (tombstones) dropped, ascending byte order.
+Proved by induction over the run with the algorithm's control state (`keyOrigin`, `nextMemEnd`, `nextBackEnd`,
+including the never-set-flag states that produce a nil key which the skip loop discards) as invariant; `N` is
+the fuel of the skip loops, `n` the collection bound. -/
+theorem joinIter_eq_merge {α β : Type} (A : Ops α) (B : Ops β) (RA : α → Entries → Prop) (RB : β → Entries → Prop)
+    (hA : IsCursor A RA) (hB : IsCursor B RB) (a₀ : α) (b₀ : β) (la lb : Entries)
+    (sa : Starts A RA a₀ la) (sb : Starts B RB b₀ lb) (N n : Nat) (hN : la.length + lb.length + 2 ≤ N)
+    (hn : la.length + lb.length ≤ n) :
+    collect (Join.ops A B N) n { mem := a₀, back := b₀ } = liveMerge la lb :=
+  collect_cursor (join_isCursor hA hB N (by omega)) n _ _ (join_starts hA hB N a₀ b₀ la lb sa sb hN)
+    (Nat.le_trans (length_liveMerge_le la lb) hn)
+
+/-- …and the join is again such a cursor, so joins nest (CacheDB's iterator joins its buffer with the
+overlay's JoinIter). -/
+theorem joinIter_is_cursor {α β : Type} (A : Ops α) (B : Ops β) (RA : α → Entries → Prop) (RB : β → Entries → Prop)
+    (hA : IsCursor A RA) (hB : IsCursor B RB) (N : Nat) (hN : 2 ≤ N) :
+    IsCursor (Join.ops A B N) (JoinR RA RB N) := join_isCursor hA hB N hN
+
+/-- The memdb / LevelDB range iterator over fixed sorted contents is such a cursor over the in-range entries. -/
+theorem range_iter_is_cursor (m : Entries) (hs : Sorted m) (s : Option Range) :
+    IsCursor (iterOps m) (FwdAt m) ∧ Starts (iterOps m) (FwdAt m) (Iter.new s) (m.filter fun e => inSlice s e.1) :=
+  ⟨iterOps_isCursor hs, iterOps_starts s hs⟩
+
+/-- `OverlayDB.NewIterator(prefix)` scanned to the end = live merge of the buffer entries and the store entries
+under the prefix. -/
+theorem overlay_scan_eq_merge (o : Overlay) (hm : o.mem.WF) (hs : Sorted o.store.data) (pfx : Key) :
+    o.scan pfx = liveMerge (under pfx o.mem.ents) (under pfx o.store.data) :=
+  overlay_scan_eq o hm.sorted hs pfx
+
+/-- A prefix scan of the block layer yields exactly the visible live keys under the prefix, in byte order,
+with their newest values: `(k, v)` is yielded iff `k` has the prefix and `v` is the non-empty value `Get(k)`
+returns. (No hypothesis on empty keys is needed.) -/
+theorem overlay_scan_visible_live (o : Overlay) (hm : o.mem.WF) (hs : Sorted o.store.data) (pfx : Key) :
+    Sorted (o.scan pfx) ∧ ∀ k v, (k, v) ∈ o.scan pfx ↔ pfx <+: k ∧ v = o.get k ∧ v ≠ [] := by
+  have hsorted : Sorted (o.scan pfx) := by
+    rw [overlay_scan_eq o hm.sorted hs]; exact liveMerge_sorted (under_sorted hm.sorted) (under_sorted hs)
+  refine ⟨hsorted, fun k v => ?_⟩
+  rw [← lookup_eq_some_iff hsorted, overlay_scan_lookup o hm.sorted hs]
+  constructor
+  · intro h
+    split at h
+    · rename_i hc; simp only [Option.some.injEq] at h; exact ⟨hc.1, h.symm, h ▸ hc.2⟩
+    · cases h
+  · rintro ⟨h1, h2, h3⟩
+    rw [if_pos ⟨h1, h2 ▸ h3⟩, h2]
+
+/-- `CacheDB.NewIterator(key)` scanned to the end: the nested join equals the nested live merge under the
+ST_STORAGE-prefixed key, and `Iter.Key()` strips exactly that one prefix byte. -/
+theorem cache_scan_eq_merge (c : CacheDB) (o : Overlay) (hc : c.mem.WF) (hm : o.mem.WF) (hs : Sorted o.store.data)
+    (key : Key) :
+    c.scan o key =
+      (liveMerge (under (stStorage :: key) c.mem.ents)
+        (liveMerge (under (stStorage :: key) o.mem.ents) (under (stStorage :: key) o.store.data))).map
+        (fun e => (stripKey e.1, e.2)) ∧
+    ∀ e ∈ liveMerge (under (stStorage :: key) c.mem.ents)
+        (liveMerge (under (stStorage :: key) o.mem.ents) (under (stStorage :: key) o.store.data)),
+      ∃ k, e.1 = stStorage :: k ∧ key <+: k :=
+  ⟨cache_scan_eq c o hc.sorted hm.sorted hs key, fun _ he => cacheRaw_prefix c o key he⟩
+
+/-- A prefix scan of the transaction layer yields exactly the visible live contract keys under the prefix, in
+byte order, with their newest values. -/
+theorem cache_scan_visible_live (c : CacheDB) (o : Overlay) (hc : c.mem.WF) (hm : o.mem.WF) (hs : Sorted o.store.data)
+    (key : Key) :
+    Sorted (c.scan o key) ∧ ∀ k v, (k, v) ∈ c.scan o key ↔ key <+: k ∧ v = c.get o k ∧ v ≠ [] :=
+  ⟨cache_scan_sorted c o hc.sorted hm.sorted hs key, fun k v => cache_scan_mem c o hc.sorted hm.sorted hs key k v⟩
 
 /-! Non-vacuity: three layers with a deleted, an overwritten and a store-only key. -/
 example :
